@@ -175,8 +175,8 @@ Definition mm_elems' (stop : bool) := fix go (l : list elem) {struct l} : list (
   | [] => ([], None)
   | e :: r => let '(v, err) := mm_elem e in
               match err with
-              | Some m => if stop then ([v], Some m) else let '(vs, e2) := go r in (v :: vs, e2)
-              | None => let '(vs, e2) := go r in (v :: vs, e2)
+              | Some m => if stop then (ocons v [], Some m) else let '(vs, e2) := go r in (ocons v vs, e2)
+              | None => let '(vs, e2) := go r in (ocons v vs, e2)
               end
   end.
 Lemma mm_obj_eq calls ret : mm_obj (Obj calls ret) = (MO (mroot (mm_flds' calls mst0)), ret).
@@ -190,9 +190,9 @@ Lemma mm_fld_inl calls ret s : mm_fld (FInline (Obj calls ret)) s = merr [] ret 
 Proof. reflexivity. Qed.
 Lemma mm_fld_arr k a s : mm_fld (FArray k a) s = (let '(v, err) := mm_arr a in merr k err (madd s k v)).
 Proof. reflexivity. Qed.
-Lemma mm_elem_obj m : mm_elem (EObj m) = mm_obj m.
+Lemma mm_elem_obj m : mm_elem (EObj m) = (let '(v, err) := mm_obj m in (Some v, err)).
 Proof. reflexivity. Qed.
-Lemma mm_elem_arr a : mm_elem (EArr a) = mm_arr a.
+Lemma mm_elem_arr a : mm_elem (EArr a) = (let '(v, err) := mm_arr a in (Some v, err)).
 Proof. reflexivity. Qed.
 Lemma mm_flds_eq fs s : mm_flds fs s = mm_flds' fs s.
 Proof. unfold mm_flds. revert s. induction fs as [|f r IH]; intros s; [reflexivity|]. cbn. apply IH. Qed.
@@ -204,7 +204,7 @@ Definition Ao (m : objm) : Prop := ok_objm m ->
 Definition Aa (a : arrm) : Prop := ok_arrm a ->
   mmap la (fst (mm_arr a)) = viewT (fst (ev_arr c a)) /\ snd (mm_arr a) = snd (ev_arr c a).
 Definition Ae (e : elem) : Prop := ok_elem e ->
-  exists v, fst (ev_elem c e) = Some v /\ mmap la (fst (mm_elem e)) = viewT v /\ snd (mm_elem e) = snd (ev_elem c e).
+  option_map (mmap la) (fst (mm_elem e)) = option_map viewT (fst (ev_elem c e)) /\ snd (mm_elem e) = snd (ev_elem c e).
 
 Lemma fold_agree calls : Forall Af calls -> ok_flds calls ->
   forall o s, repr s = Mv o -> repr (mm_flds' calls s) = Mv (ev_flds' c calls o).
@@ -212,18 +212,22 @@ Proof.
   induction 1 as [|f r Hf _ IH]; intros Hw o s H; [exact H|]. cbn [ok_flds] in Hw. destruct Hw as [H1 H2].
   cbn [mm_flds' ev_flds']. apply IH; [exact H2|]. now apply Hf.
 Qed.
+Lemma ocons_map (v : option (mtree leaf)) (w : option jt) vs ws :
+  option_map (mmap la) v = option_map viewT w -> map (mmap la) vs = map viewT ws ->
+  map (mmap la) (ocons v vs) = map viewT (consopt w ws).
+Proof. destruct v, w; cbn [option_map ocons consopt map]; intros H1 H2; try discriminate; [injection H1 as ->; now rewrite H2|exact H2]. Qed.
 Lemma elems_agree stop es : Forall Ae es -> ok_elems es ->
   map (mmap la) (fst (mm_elems' stop es)) = map viewT (fst (ev_elems' c stop es)) /\
   snd (mm_elems' stop es) = snd (ev_elems' c stop es).
 Proof.
   induction 1 as [|e r He _ IH]; intros Hw; [split; reflexivity|]. cbn [ok_elems] in Hw. destruct Hw as [H1 H2].
-  destruct (He H1) as (v & Ev & Hv & Herr). specialize (IH H2). cbn [mm_elems' ev_elems'].
-  destruct (mm_elem e) as [lv err]. destruct (ev_elem c e) as [ov err']. cbn [fst snd] in *. subst ov err'.
+  destruct (He H1) as (Hv & Herr). specialize (IH H2). cbn [mm_elems' ev_elems'].
+  destruct (mm_elem e) as [lv err]. destruct (ev_elem c e) as [ov err']. cbn [fst snd] in *. subst err'.
   destruct IH as [I1 I2].
-  destruct err as [m|]; [destruct stop|]; cbn [consopt fst snd map].
-  - split; [now rewrite Hv|reflexivity].
-  - destruct (mm_elems' false r) as [vs e2]. destruct (ev_elems' c false r) as [ws e2']. cbn [fst snd map consopt] in *. split; [now rewrite Hv, I1|exact I2].
-  - destruct (mm_elems' stop r) as [vs e2]. destruct (ev_elems' c stop r) as [ws e2']. cbn [fst snd map consopt] in *. split; [now rewrite Hv, I1|exact I2].
+  destruct err as [m|]; [destruct stop|]; cbn [fst snd].
+  - split; [now apply ocons_map|reflexivity].
+  - destruct (mm_elems' false r) as [vs e2]. destruct (ev_elems' c false r) as [ws e2']. cbn [fst snd] in *. split; [now apply ocons_map|exact I2].
+  - destruct (mm_elems' stop r) as [vs e2]. destruct (ev_elems' c stop r) as [ws e2']. cbn [fst snd] in *. split; [now apply ocons_map|exact I2].
 Qed.
 
 Theorem map_step : forall f, Af f.
@@ -261,20 +265,21 @@ Proof.
     destruct (elems_agree stop es Hes Hok) as [H1 H2].
     destruct (mm_elems' stop es) as [vs early]. destruct (ev_elems' c stop es) as [ws early']. cbn [fst snd] in *. subst early'.
     split; [|reflexivity]. now rewrite mmap_MA, viewT_arr, H1.
-  - intros b _. eexists. repeat split.
-  - intros z _. eexists. repeat split.
-  - intros z _. eexists. repeat split.
-  - intros f _. eexists. repeat split.
-  - intros s _. eexists. repeat split.
-  - intros s _. eexists. repeat split.
-  - intros re im g _. eexists. repeat split.
-  - intros d _. eexists. repeat split.
-  - intros t _. eexists. repeat split.
-  - intros r Hok. cbn [ok_elem] in Hok. destruct r as [|t|m]; [eexists; repeat split|eexists; repeat split|contradiction].
+  - intros b _. split; reflexivity.
+  - intros z _. split; reflexivity.
+  - intros z _. split; reflexivity.
+  - intros f _. split; reflexivity.
+  - intros s _. split; reflexivity.
+  - intros s _. split; reflexivity.
+  - intros re im g _. split; reflexivity.
+  - intros d _. split; reflexivity.
+  - intros t _. split; reflexivity.
+  - intros r Hok. cbn [ok_elem] in Hok. destruct r as [|t|m]; [split; reflexivity|split; reflexivity|contradiction].
   - intros m Hm Hok. cbn [ok_elem] in Hok. destruct (Hm Hok) as [[H1 H2] _]. rewrite mm_elem_obj, ev_elem_obj.
-    destruct (ev_obj c m) as [v err]. exists v. cbn [fst snd] in *. auto.
+    destruct (mm_obj m) as [lv e1]. destruct (ev_obj c m) as [v err]. cbn [fst snd option_map] in *. split; [now rewrite H1|exact H2].
   - intros a Ha Hok. cbn [ok_elem] in Hok. destruct (Ha Hok) as [H1 H2]. rewrite mm_elem_arr, ev_elem_arr.
-    destruct (ev_arr c a) as [v err]. exists v. cbn [fst snd] in *. auto.
+    destruct (mm_arr a) as [lv e1]. destruct (ev_arr c a) as [v err]. cbn [fst snd option_map] in *. split; [now rewrite H1|exact H2].
+  - intros msg _. split; reflexivity.
 Qed.
 
 (* C02_map_agrees *)
